@@ -129,6 +129,14 @@ func (g *c10gen) shapeOp(op string) c10Op {
 	return c10Op{Op: op, S: core.PickS(r, c10Shapes), A: []fl{dim(), dim(), dim(), fl(r.IntRange(-1, 9)), fl(r.IntRange(0, 5)), fl(r.Range(-720, 720)), fl(r.Range(-720, 720))}, B: []bool{r.Bool()}}
 }
 
+// collinearT picks the position of a control point along the chord (0 = start, 1 = end).
+func collinearT(r *core.Rng) float64 {
+	if r.Bool() {
+		return r.Range(0, 1)
+	}
+	return core.PickF(r, []float64{-1, -0.5, 0, 0.25, 0.5, 1, 1.5, 2, 3, r.Range(-1, 3)})
+}
+
 func genC10(nonfin bool) func(r *core.Rng) any {
 	return func(r *core.Rng) any {
 		g := &c10gen{r: r, nonfin: nonfin}
@@ -149,15 +157,16 @@ func genC10(nonfin bool) func(r *core.Rng) any {
 				g.moved(p)
 			case 6, 7:
 				cp, p := g.point(), g.point()
-				if r.Chance(0.2) {
-					cp = g.cur.Lerp(p, r.Range(0, 1)) // control point on the chord: degenerate
+				if r.Chance(0.3) {
+					// control point on the line through the chord, inside it or beyond either end: degenerate
+					cp = g.cur.Lerp(p, collinearT(r))
 				}
 				c.Ops = append(c.Ops, c10Op{Op: "QuadTo", A: []fl{fl(cp.X), fl(cp.Y), fl(p.X), fl(p.Y)}})
 				g.moved(p)
 			case 8, 9:
 				c1, c2, p := g.point(), g.point(), g.point()
-				if r.Chance(0.2) {
-					c1, c2 = g.cur.Lerp(p, r.Range(0, 1)), g.cur.Lerp(p, r.Range(0, 1))
+				if r.Chance(0.3) {
+					c1, c2 = g.cur.Lerp(p, collinearT(r)), g.cur.Lerp(p, collinearT(r))
 				}
 				c.Ops = append(c.Ops, c10Op{Op: "CubeTo", A: []fl{fl(c1.X), fl(c1.Y), fl(c2.X), fl(c2.Y), fl(p.X), fl(p.Y)}})
 				g.moved(p)
